@@ -19,7 +19,7 @@ func init() {
 	register(&mon.Spec{
 		ID:    "C06",
 		Level: "exploration",
-		Rule: "scripts against p9p.ServeConn with a scripted Handler over an in-memory connection (raw 9P client built on the reference codec): each script mixes, in PRNG order, new requests of every message kind (T-kinds, R-kinds and Tversion sent as requests; tags incl. 0, 1, 0xFFFE, NOTAG), bursts of pipelined requests (depth up to 64), " +
+		Rule: "scripts against p9p.ServeConn with a scripted Handler over an in-memory connection (raw 9P client built on the reference codec): results are small or of exactly the largest size that fits msize (error text of msize-9..msize-12 bytes, Rread data of msize-11..msize-14); each script mixes, in PRNG order, new requests of every message kind (T-kinds, R-kinds and Tversion sent as requests; tags incl. 0, 1, 0xFFFE, NOTAG), bursts of pipelined requests (depth up to 64), " +
 			"duplicates of outstanding tags at every position of the window, handler completions in PRNG order (singly and in groups released together), handlers that answer instantly, results of every R-kind and errors in three flavours (plain error, MessageRerror value, *MessageRerror), and immediate legal reuse of a tag after its reply was read. " +
 			"After every stimulus the harness waits for quiescence (goroutine states) and compares what happened with a conservation monitor keyed by (tag, epoch): handler invoked exactly once per dispatched request with the message sent (Tread count clamped to msize-11), exactly one reply per request carrying its tag and exactly the handler's result / error text, " +
 			"duplicates answered with 'duplicate tag' without dispatch and without disturbing the original, no stray replies. non-trivial = >= 2 handlers in flight with completion order != arrival order, or a duplicate-tag probe; distinct by schedule hash",
@@ -32,7 +32,7 @@ func init() {
 		Shards:    shards(8, 16),
 		Timeout:   timeouts(3*time.Minute, 40*time.Minute),
 		MinEvals:  100,
-		Required:  []string{"requests_dispatched", "replies_checked", "duplicate_probes", "inversions", "error_replies", "instant_completions", "tag_reuses", "serve_returned", "duplicate_bursts"},
+		Required:  []string{"requests_dispatched", "replies_checked", "duplicate_probes", "inversions", "error_replies", "instant_completions", "tag_reuses", "serve_returned", "duplicate_bursts", "boundary_size_results"},
 		Run:       runC06,
 	})
 }
@@ -209,6 +209,25 @@ func runC06Script(w *mon.W, no int) {
 				return t
 			}
 		}
+	}
+	// results: usually small; sometimes of exactly the largest size that still fits msize
+	result := func(uid int) hResult {
+		if w.Rng.Intn(7) != 0 {
+			return resultWithUID(w.Rng, g, uid)
+		}
+		d := w.Rng.Intn(4)
+		w.Count("boundary_size_results", 1)
+		nontrivial = true
+		pad := func(prefix string, n int) string { return prefix + strings.Repeat("e", n-len(prefix)) }
+		switch w.Rng.Intn(4) {
+		case 0:
+			return hResult{err: errors.New(pad(fmt.Sprintf("long-error-%d-", uid), int(msize)-9-d))}
+		case 1:
+			return hResult{err: p9p.MessageRerror{Ename: pad(fmt.Sprintf("long-rerror-%d-", uid), int(msize)-9-d)}}
+		case 2:
+			return hResult{msg: p9p.MessageRerror{Ename: pad(fmt.Sprintf("long-rerror-msg-%d-", uid), int(msize)-9-d)}}
+		}
+		return hResult{msg: p9p.MessageRread{Data: []byte(pad(fmt.Sprintf("long-data-%d-", uid), int(msize)-11-d))}}
 	}
 	kinds := []p9p.FcallType{}
 	for _, k := range gen.Kinds {
@@ -492,7 +511,7 @@ func runC06Script(w *mon.W, no int) {
 				return
 			}
 			// the flushed request completes late: nothing may be sent for it, B stays pending
-			ar := resultWithUID(w.Rng, g, a.uid)
+			ar := result(a.uid)
 			trace = append(trace, fmt.Sprintf("late completion of flushed uid=%d", a.uid))
 			a.inv.gate <- ar
 			if !settle() {
@@ -517,7 +536,7 @@ func runC06Script(w *mon.W, no int) {
 				idx := w.Rng.Intn(len(parked))
 				rq := parked[idx]
 				parked = append(parked[:idx], parked[idx+1:]...)
-				r := resultWithUID(w.Rng, g, rq.uid)
+				r := result(rq.uid)
 				rq.result = &r
 				trace = append(trace, fmt.Sprintf("complete uid=%d tag=%d", rq.uid, rq.tag))
 				rq.inv.gate <- r
@@ -535,7 +554,7 @@ func runC06Script(w *mon.W, no int) {
 	// drain
 	var rel []*c06req
 	for _, rq := range parked {
-		r := resultWithUID(w.Rng, g, rq.uid)
+		r := result(rq.uid)
 		rq.result = &r
 		rq.inv.gate <- r
 		rel = append(rel, rq)
